@@ -42,6 +42,27 @@ fn position_to_index(source: &[char], position: Position) -> usize {
         .take(position.line as usize + 1)
         .collect();
 
+    // The requested line is the final line of the text, which no newline terminates.
+    // Resolve the column on that line (not on the one before it).
+    if position.line > 0 && newline_indices.len() == position.line as usize {
+        let line_start_idx = newline_indices[newline_indices.len() - 1];
+        let mut traversed_cols = 0;
+
+        for (traversed_chars, c) in source[line_start_idx..].iter().enumerate() {
+            if traversed_cols == position.character as usize {
+                return line_start_idx + traversed_chars;
+            }
+
+            traversed_cols += c.len_utf16();
+        }
+
+        if traversed_cols == position.character as usize {
+            return source.len();
+        }
+
+        // A column past the end of the final line: fall through to the lenient handling below.
+    }
+
     let line_end_idx = newline_indices.pop().unwrap_or(source.len());
     let line_start_idx = newline_indices.pop().unwrap_or(0);
 
